@@ -13,6 +13,8 @@ for d in sorted(glob.glob(os.path.join(VERIF, "seeded", "C*-*"))):
     sid = os.path.basename(d)
     if only and sid not in only:
         continue
+    if not os.path.exists(os.path.join(d, "meta.json")):
+        continue  # a note about a change that became moot
     prop = json.load(open(os.path.join(d, "meta.json")))["property"]
     subprocess.run(["git", "-C", "/repo", "worktree", "remove", "--force", WT], capture_output=True)
     subprocess.run(["git", "-C", "/repo", "worktree", "add", "-q", "--detach", WT, "HEAD"], check=True)
